@@ -314,4 +314,14 @@ def trimLoop : List (Eni × Eni) → Int → Bool
       | none => false
       | some n => trimLoop rest (toDel - n)
 
+/-! ## full synchronisation: merging what the cloud reports into the record (eni.go `mergeIPMap`) -/
+
+/-- `mergeIPMap(remote, current)` for one interface and one family: addresses the cloud no longer reports are
+    dropped from the record, addresses only the cloud knows are entered as the cloud reports them (valid, or
+    `Deleting` for an address the cloud reports as not available), and an address known to both sides keeps its
+    recorded entry untouched — status and binding.  (`current` is a non-nil map; with a nil map the Go function
+    allocates a local one and the additions never reach the caller.) -/
+def mergeEntries (remote current : List Entry) : List Entry :=
+  current.filter (fun x => remote.any (·.ip == x.ip)) ++ remote.filter (fun r => !(current.any (·.ip == r.ip)))
+
 end Terway.Ipam
